@@ -1,5 +1,5 @@
 From SV Require Import Base.ListX Store.Masked World.Env World.Join World.JoinProps World.JoinAbs World.JoinRefine
-  World.JoinAbsProps World.EnvSim World.Simulation.
+  World.JoinAbsProps World.EnvSim World.JoinNoStuck World.Simulation.
 From Coq Require Import Sorting.Sorted.
 From SV Require Import Props.C06.
 Check (C06_ascending_once : forall e eids ms keys, jkeys e eids ms = Some keys ->
@@ -78,3 +78,8 @@ Check (C06_drain_removes_the_visited_only : forall unit av hs excl eids pre post
   forallb (fun m => negb (m_owns m s)) pre = true -> forallb (fun m => negb (m_owns m s)) post = true ->
   cell (fst (a_visit_keys unit av hs excl eids (pre ++ MDrain s :: post) keys S)) s j =
     if in_dec N.eq_dec j keys then None else cell S s j).
+Check (C06_joins_are_never_stuck : forall e av eids hs k ms, EInv e -> cx_stuck (se_cx e) = false ->
+  forallb (m_registered e) ms = true ->
+  cx_stuck (se_cx (fst (env_join e av eids hs k ms))) = false /\ EInv (fst (env_join e av eids hs k ms))).
+Check (C06_joins_add_no_member : forall e av eids hs k ms sid i,
+  NS.mem i (env_mask (fst (env_join e av eids hs k ms)) sid) = true -> NS.mem i (env_mask e sid) = true).
